@@ -104,6 +104,26 @@ def run_case(case):
         Eq = float(np.max(np.abs(Hq - rq)))
         Es.append((Ep, Eq))
         deltas.append(float(np.max(np.diff(z) / z[:-1])))
+    # the same components under a halo: the padded domain is observed through explicit padding (every retained wavenumber of the
+    # padded grid must be the one the halo=0 solve of the padded problem uses)
+    halo_note = "skipped"
+    hviol = None
+    h = float(max(dx, dy) * rng.uniform(1.1, 2.9))
+    px, py = int(h / (dom[0] / nx)), int(h / (dom[1] / ny))
+    zc_, profc_ = gen.vgrid(gridk, z0, ztop, n0), fam(gen.vgrid(gridk, z0, ztop, n0))
+    kxm, kym = np.pi / (dom[0] / nx), np.pi / (dom[1] / ny)
+    Gall = gen.growth(zc_, profc_, kxm, kym)
+    if Gall <= 18.0:
+        lvh = [n0 // 2, n0]
+        _, ch, fh = S(q0, zc_, profc_, dom, lvh, modes=(512, 512), halo=h, precision="double")
+        qp = np.pad(q0, ((py, py), (px, px)))
+        domp = (dom[0] + 2 * px * (dom[0] / nx), dom[1] + 2 * py * (dom[1] / ny))
+        _, cp, fp_ = S(qp, zc_, profc_, domp, lvh, modes=(512, 512), halo=0.0, precision="double")
+        eh = max(solve.relerr(ch, cp[:, py : py + ny, px : px + nx], scale=float(np.max(np.abs(cp))) or 1.0),
+                 solve.relerr(fh, fp_[:, py : py + ny, px : px + nx], scale=float(np.max(np.abs(fp_))) or 1.0))
+        halo_note = "compared"
+        if eh > solve.tol("double", Gall, base=1e-11):
+            hviol = dict(what="components_under_halo_differ_from_padded_problem", rel=eh, halo=h, pad=(px, py), G=Gall)
     viol = []
     ctx = dict(family=fam.d, grid=gridk, n0=n0, nx=nx, ny=ny, dx=dx, dy=dy, z0=z0, ztop=ztop, modes=nmodes, errors=Es, deltas=deltas)
     resid = {}
@@ -120,7 +140,9 @@ def run_case(case):
                 resid[f"fine_over_coarse_{nm}"] = max(resid.get(f"fine_over_coarse_{nm}", 0.0), b_ / a)
             if b_ > bound:
                 viol.append(dict(what="error_does_not_shrink_with_layer_thickness", field=nm, refinement=k, coarse=a, fine=b_, bound=bound, **ctx))
-    b = {f"wind:{fam.d['wind']}": 1, f"K:{fam.d['K']}": 1, f"grid:{gridk}": 1, f"n0:{n0}": 1, f"refinements:{len(mults)}": 1}
+    if hviol:
+        viol.append(dict(hviol, **ctx))
+    b = {f"halo_clause:{halo_note}": 1, f"wind:{fam.d['wind']}": 1, f"K:{fam.d['K']}": 1, f"grid:{gridk}": 1, f"n0:{n0}": 1, f"refinements:{len(mults)}": 1}
     return {"evals": len(mults) * nmodes * 3 * 2, "nontrivial": True, "sig": f"{case['idx']}", "buckets": b, "resid": resid,
             "counters": {"solver_calls": len(mults), "riccati_integrations": 1, "modes_compared": nmodes,
                          "modes_skipped_by_precondition": int((~good).sum())},
